@@ -16,7 +16,7 @@ Replay(c, i, cur) ==
   IF i > Len(c.steps) THEN {}
   ELSE LET r == IF c.recycle THEN MsSubmit(cur, c.steps[i].msg) ELSE MsSubmitFlat(cur, c.steps[i].msg)
            obs == c.steps[i]
-           same == NormSt(r.st) = NormSt(obs.state) /\ r.out = obs.out
+           same == CoarseSt(NormSt(r.st)) = CoarseSt(NormSt(obs.state)) /\ r.out = obs.out
        IN (IF r.det /\ ~same THEN {i} ELSE {}) \cup (IF r.det THEN Replay(c, i + 1, [cur EXCEPT !.st = r.st]) ELSE {})
 Labels(c) == IF c.outcome # "returned" THEN {"host-failed"} ELSE
              IF Replay(c, 1, c.machine) # {} THEN {"msimple-differs-from-composed-model"} ELSE {}
